@@ -35,6 +35,10 @@ CHECKS = {
         text="TLC explores every history (<=3 ops quick, <=4 thorough) of insert / remove / retain / cache over pools of 8-16 token patterns (escaped literals, marker groups incl. nested groups, escaped parentheses, parentheses inside character classes, empty-matching groups), case-sensitive and case-insensitive, checking on the code-shaped tree that find equals the linear scan for every probe string, len, get, replace-on-same-key, the prefix invariant and remove's return value; PrefixChar.tla shows by enumeration (all pairs of token sequences) that the character-level prefix function cuts exactly at the longest common token prefix. One history per distinct reachable tree is replayed on a real RegexTreeMap; after every operation len/find/get and the structural snapshot (hook H1) are validated by TLC against the linear scan (verdict) and the model's exact tree shape (drift); all token-sequence pairs are replayed into the real prefix function (hook H2).",
         note="Bounded to the token alphabet and pools of MC_RadixTree.tla; ids unique across patterns; the model's regex semantics is re-checked against the regex crate on the probe universe at each run (mismatch = tool error). Two genuine defects found by TLC in the model and confirmed on the code were repaired (fix: commits, see known_findings.json).",
         ref="DESIGN.md section 6, C08"),
+    "C09": dict(
+        text="Url.tla transcribes the rule-side and the request-side normalisation token by token (sanitise, form-decode, BTreeMap sort with last-value-wins, the two re-encoding passes, marketing skip, lower-casing) and defines Canonical(u, cfg) = sanitised path + decoded parameter map. TLC checks, for every configuration and every rule URL of the universe against EVERY request URL, that the code-shaped match equals the canonical-form match outside two named deviation classes, and exactly when marketing parameters are ignored and matching is case sensitive. The harness builds the real rule + router per (configuration, rule URL), matches a request for every URL of the universe, records the normalised strings, the Location header (forwarding of skipped marketing parameters) and rebuild idempotence; TLC judges every pair (zero drift: the model predicts every normalised string).",
+        note="Universe: 104 URLs (quick) / ~700 (thorough) x 8 configurations, i.e. every pair is probed, so self-match, discrimination, permutation, marketing, case and re-encoding invariance are all covered as instances. Two genuine defects are known findings (request side not normalised when marketing-ignore is off; sort-before-case-fold), the second one found by TLC in the model.",
+        ref="DESIGN.md section 6, C09"),
     "C11": dict(
         text="TLC enumerates rule sets of <=3 (thorough: 4) rules with every rank-tie pattern and conflicting effects; the specification's order is (rank desc, id desc). For each set the harness folds every permutation of the real match vector and matches on routers built in every insertion order; TLC checks that all serialised actions are identical and that the recorded filter order equals the specification's.",
         note="Sampling disabled as the property states. Bounded to <=4 matched rules; serialisations compared by hash.",
